@@ -6,8 +6,9 @@ FEATS = ["std", "serde", "decode", "bit-vec", "schema", "docs"]
 QUICK = [[], ["std"], ["std", "serde", "decode", "bit-vec", "schema", "docs"], ["serde", "decode"], ["docs"], ["std", "docs", "bit-vec"], ["bit-vec"], ["schema"]]
 
 def build_and_run(cfgset):
-    td = os.path.join(vlib.HARNESS, "target-fp")
+    td = os.path.join(vlib.HARNESS, "target-fp" + ("-" + vlib.ALT if vlib.ALT else ""))
     cmd = ["cargo", "build", "--offline", "-q", "-p", "fp", "--no-default-features", "--target-dir", td]
+    if vlib.ALT: cmd += ["--config", 'paths=["%s"]' % vlib.ALT_REPO]
     if cfgset: cmd += ["--features", ",".join(cfgset)]
     with vlib.Lock("cargo-fp"):
         p = vlib.run(cmd, cwd=vlib.HARNESS, env={"CARGO_NET_OFFLINE": "true", "RUSTFLAGS": "-Awarnings"})
